@@ -368,5 +368,30 @@ pub fn c16(h: &mut H) {
             }
         }
     }
+    // hash values with LEADING ZERO octets (one hash in 256): honest proofs whose Fiat-Shamir challenges happen to be
+    // short must verify like any other. Proofs are generated with the production randomness until a few such
+    // challenges have been seen (about one proof in 64 has one).
+    {
+        let a = Integer::from(10);
+        let b = Integer::from(1000);
+        let tries = if h.thorough { 1200 } else { 260 };
+        let mut hits = 0u32;
+        for t in 0..tries {
+            if hits >= 4 { break; }
+            let x = Integer::from(10 + (t * 37) % 991);
+            let c = commit1(h, &ck, &x);
+            let (rp, _) = rprove(h, &x, &c, &g, &hh, &n, &a, &b, vec![]);
+            let pid = h.last();
+            let rp = match rp.ok() { Some(v) => v.clone(), None => continue };
+            let mut lv = Vec::new();
+            leaves(&rp, String::new(), &mut lv);
+            let short = lv.iter().any(|(p, v)| (p.ends_with(".C") || p.ends_with(".challenge")) && *v >= 0 && v.significant_bits() <= 248);
+            if !short { continue; }
+            hits += 1;
+            h.stat("C16.short_challenge");
+            let v = rverify(h, &rp, &g, &hh, &n, &a, &b);
+            h.expect(v.is_true(), "C16.verify_short_challenge", "an honest range proof one of whose challenges has a leading zero octet does not verify", &[pid, h.last()]);
+        }
+    }
     let _ = json!(0);
 }
